@@ -17,11 +17,13 @@ def run(chk):
     only = getattr(chk, "only", None)
     if not only or "proof" in only:
         C02.kernel_obligations(chk)
+        from contracts import indexed
+        indexed.obligations(chk, chk.prop)
         chk.discharge()
     chk.assume("@njit kernels verified as their undecorated Python bodies; float64 treated as the reals (re-association exact)")
     chk.assume("lemma (not machine-checked): with the kernel contracts, lnL is a sum over unique columns of multiplicity * log "
                "column-likelihood and each column likelihood a product over children, hence invariant under column "
-               "permutation/merging and child order; likelihood_tree._indexed multiplicities are covered by the bounded tier")
+               "permutation/merging and child order; likelihood_tree._indexed (unique columns, multiplicities, index) is proved by a quantified loop invariant")
     chk.assume("pulley principle (re-rooting, reversible models) and edge splitting (P(s+t)=P(s)P(t)) are not decided by proof")
     if (not only or "bounded" in only) and os.path.exists(os.path.join(os.path.dirname(__file__), "..", "bounded", "C11.py")):
         chk.bounded("bounded.C11")
